@@ -551,13 +551,31 @@ fn dribble_precheck(replay: &Option<String>) -> Option<i32> {
 
 pub fn c06(tier: Tier, replay: Option<String>) -> i32 {
     if let Some(code) = count_precheck("C06", &replay) { return code; }
+    if tier == Tier::Thorough && replay.is_none() {
+        // more than 2^32 bytes written on one connection (thorough only: about a minute)
+        use rayon::prelude::*;
+        let combos: Vec<(bool, bool)> = vec![(false, true), (true, true), (false, false), (true, false)];
+        let results: Vec<Result<Result<u64, String>, String>> = combos.par_iter().map(|(t, c)| crate::report::guard(|| super::longsession::run_long_writes(*t, *c))).collect();
+        for ((t, c), r) in combos.iter().zip(results) {
+            let what = match r { Ok(Ok(_)) => continue, Ok(Err(e)) if e.starts_with("MACHINERY") => { eprintln!("{e}"); return 4; }, Ok(Err(e)) => e, Err(p) => format!("panicked: {p}") };
+            let path = format!("/verif/replays/C06/long-writes-{}-{}.json", if *t { "tokio" } else { "blocking" }, if *c { "compressed" } else { "uncompressed" });
+            println!("VIOLATION property=C06 replay={path}");
+            println!("  signature: C06|long-writes|{}", if *t { "tokio" } else { "blocking" });
+            println!("  witness:   one {} connection ({}) writing more than 2^32 bytes of maximum-size frames: {what}", if *t { "tokio" } else { "blocking" }, if *c { "compressed" } else { "uncompressed" });
+            let _ = std::fs::create_dir_all("/verif/replays/C06");
+            let _ = std::fs::write(&path, json!({"property": "C06", "site": "long-writes", "tokio": t, "compressed": c}).to_string());
+            return 1;
+        }
+        eprintln!("C06 long-writes: 4 connections wrote more than 2^32 bytes each");
+    }
     if let Some(code) = dribble_precheck(&replay) { return code; }
     finish("C06", tier, replay, c06_instances(tier),
         "instances = (mode, implementation, packet sequence of length <= 2 (quick) / <= 3 (thorough) over {TINY 4 B, SMALL 8 B, MSO 12 B, MST 68 B, MCI 228 B}); at every transport write call every acceptance k in 1..=offered (offered <= 12) or {1,2,3,4,n/2,n-1,n}; not ready (tokio Pending / blocking Interrupted, <= 2) and 30 s clock steps (tokio, <= 2); plus every kind's B1 packet and the largest frames of every counted kind (up to 1016 B) followed by a TINY; oracle on every transition: outbound bytes are a prefix of the concatenated frames and complete when write() returns Ok",
         vec!["the expected frames come from Codec::encode (judged by C01-C03)".into(),
             "many-keep-alives-and-writes (4 connections, one execution each, before the search): 175 000 frames in with 70 000 keep-alives, 105 000 writes; the transport must have received exactly the replies and the written frames in call order".into(),
             "dribble-writes (one execution each, before the search): every kind's B1 packet and the largest frames of every counted kind (252, ~600, 1016 bytes, the protocol maximum) through a transport that takes 1 / 2 / 3 / 7 bytes per call all the way, or 1 byte with 'not ready' before every call - the search itself merges states on the bytes written and so executes only the shortest way to each".into(),
-            "scripted-acceptance (one execution each, before the search): the largest AXM / MCI / NLP frames (252, ~600, 1016 bytes) written twice and a TINY, the first four transport calls accepting each of {everything, 1, 100, 256, 300, half, all but one} bytes (7^4 scripts), everything afterwards".into()])
+            "scripted-acceptance (one execution each, before the search): the largest AXM / MCI / NLP frames (252, ~600, 1016 bytes) written twice and a TINY, the first four transport calls accepting each of {everything, 1, 100, 256, 300, half, all but one} bytes (7^4 scripts), everything afterwards".into(),
+            "long-writes (thorough tier only): one connection per implementation and mode writes more than 2^32 bytes of maximum-size frames into a transport that checks every byte (library built with overflow checks)".into()])
 }
 
 // ---------------------------------------------------------------------------------------------
@@ -674,10 +692,38 @@ pub fn c07_instances(tier: Tier) -> Vec<Instance> {
 
 pub fn c07(tier: Tier, replay: Option<String>) -> i32 {
     if let Some(code) = count_precheck("C07", &replay) { return code; }
+    if replay.is_none() {
+        // the write side fails in the middle of a reply (blocking connection; one execution each)
+        use super::longsession as ls;
+        for (idx, c) in ls::reply_fault_cases().iter().enumerate() {
+            let what = match crate::report::guard(|| ls::run_reply_fault(c)) { Ok(Ok(())) => continue, Ok(Err(e)) => e, Err(p) => format!("panicked: {p}") };
+            let path = format!("/verif/replays/C07/reply-write-fault-{idx}.json");
+            println!("VIOLATION property=C07 replay={path}");
+            println!("  signature: C07|reply-write-fault|blocking|{:?}", c.kind);
+            println!("  witness:   {}: {what}", c.label());
+            let _ = std::fs::create_dir_all("/verif/replays/C07");
+            let _ = std::fs::write(&path, json!({"property": "C07", "site": "reply-write-fault", "index": idx, "case": c.label()}).to_string());
+            return 1;
+        }
+    } else if let Some(path) = &replay {
+        if let Some(v) = std::fs::read_to_string(path).ok().and_then(|s| serde_json::from_str::<serde_json::Value>(&s).ok()) {
+            if v["site"] == "reply-write-fault" {
+                use super::longsession as ls;
+                let cases = ls::reply_fault_cases();
+                let Some(c) = cases.get(v["index"].as_u64().unwrap_or(0) as usize) else { return 4 };
+                return match crate::report::guard(|| ls::run_reply_fault(c)) {
+                    Ok(Ok(())) => { println!("replay: {} - held", c.label()); 0 },
+                    Ok(Err(e)) => { println!("VIOLATION property=C07 replay={path}\n  witness: {}: {e}", c.label()); 1 },
+                    Err(p) => { println!("VIOLATION property=C07 replay={path}\n  witness: {}: panicked: {p}", c.label()); 1 },
+                };
+            }
+        }
+    }
     finish("C07", tier, replay, c07_instances(tier),
         "instances: (a) every single TINY (32 sub-type bytes x request ids; quick: all 256 ids for sub-type 0 and 6 ids for the others), whole and byte by byte; (b) every kind's B1 frame between two keep-alives; (c) all sequences of length <= 3/4 over {keep-alive, TINY_NONE reqi 1, TINY_PING reqi 0, SMALL, MSO} with every partition, and with the 4-byte reply split / delayed on the write side; oracle: outbound = one pong per keep-alive handed over, accepted before the hand-over, nothing else",
         vec!["short writes on the blocking write side rely on C06's property (write_all)".into(),
-            "many-keep-alives-and-writes (4 connections, one execution each, before the search): 70 000 keep-alives on one connection, interleaved with writes; exactly 70 000 replies, each in its place".into()])
+            "many-keep-alives-and-writes (4 connections, one execution each, before the search): 70 000 keep-alives on one connection, interleaved with writes; exactly 70 000 replies, each in its place".into(),
+            "reply-write-fault (48 executions, blocking): the write side accepts 0..=3 bytes of a reply, fails once with one of 6 error kinds, then accepts everything - the wire never carries more than a prefix of one reply, and the keep-alive is handed over only with the reply whole".into()])
 }
 
 // ---------------------------------------------------------------------------------------------
